@@ -23,6 +23,8 @@ def check_case(name, params, tier, viol):
     ref = distlaw.REF[name](*params)
     K = f"C11/{distlaw.CLASS[name]}"
     evals = 0
+    # schulz_zimm with Mw >= 2 Mn (z <= 1): the documented formula gives mass to M = 0 (known finding, DESIGN 6); its violations carry their own key
+    TAG = "[Mw>=2Mn]" if name == "schulz_zimm" and params[0] >= 2 * params[1] else ""
     with warnings.catch_warnings():
         warnings.simplefilter("ignore")
         d = get_distribution(text)
@@ -42,10 +44,13 @@ def check_case(name, params, tier, viol):
         # point probabilities
         for x in grid:
             p = float(d.prob_mw(x))
-            want = ref.pmf(x) if ref.discrete else ref.pdf(x)
+            want = getattr(ref, 'documented', ref.pmf)(x) if ref.discrete else ref.pdf(x)
             evals += 1
+            if p != p:
+                viol.append({"key": K + ".prob_mw/post[is-a-number]", "clause": "probabilities are numbers (non-negative)", "detail": {"x": x, "got": "nan"}, "input": inp})
+                break
             if not (p >= 0) or not rel(p, want, 1e-6) and abs(p - want) > 1e-12:
-                viol.append({"key": K + ".prob_mw/post[mass]", "clause": "probabilities are non-negative and equal the documented mass / density",
+                viol.append({"key": K + ".prob_mw/post[mass]" + TAG, "clause": "probabilities are non-negative and equal the documented mass / density",
                              "detail": {"x": x, "got": p, "want": want}, "input": inp})
                 break
         # intervals through the real RememberAdd
@@ -58,8 +63,11 @@ def check_case(name, params, tier, viol):
             p = float(d.prob_mw(r))
             want = ref.interval(grid[i], grid[i + 1])
             evals += 1
+            if p != p:
+                viol.append({"key": K + ".prob_mw/post[is-a-number]", "clause": "probabilities are numbers (non-negative)", "detail": {"interval": (grid[i], grid[i + 1]), "got": "nan"}, "input": inp})
+                break
             if not rel(p, want, 1e-6) and abs(p - want) > 1e-9:
-                viol.append({"key": K + ".prob_mw/post[interval]", "clause": "the probability of a mass interval is the cdf difference of this law with its own parameters",
+                viol.append({"key": K + ".prob_mw/post[interval]" + TAG, "clause": "the probability of a mass interval is the cdf difference of this law with its own parameters",
                              "detail": {"interval": (grid[i], grid[i + 1]), "got": p, "want": want}, "input": inp})
                 break
         # the same object asked again: intervals that share an end point, in another order (no memory between queries)
@@ -71,7 +79,7 @@ def check_case(name, params, tier, viol):
                 want = ref.interval(lo, hi)
                 evals += 1
                 if not rel(p, want, 1e-6) and abs(p - want) > 1e-9:
-                    viol.append({"key": K + ".prob_mw/post[interval]", "clause": "the probability of a mass interval is the cdf difference of this law with its own parameters",
+                    viol.append({"key": K + ".prob_mw/post[interval]" + TAG, "clause": "the probability of a mass interval is the cdf difference of this law with its own parameters",
                                  "detail": {"interval": (lo, hi), "got": p, "want": want, "note": "repeated queries on one object"}, "input": inp})
                     break
         # normalisation, by the library's own numbers
@@ -96,9 +104,9 @@ def check_case(name, params, tier, viol):
                 mean = float(np.trapezoid(ys * xs, xs))
         evals += 1
         if tot is not None and abs(tot - 1.0) > 2e-4:
-            viol.append({"key": K + ".prob_mw/post[normalised]", "clause": "probabilities sum / integrate to 1 over the support", "detail": {"total": tot}, "input": inp})
+            viol.append({"key": K + ".prob_mw/post[normalised]" + TAG, "clause": "probabilities sum / integrate to 1 over the support", "detail": {"total": tot}, "input": inp})
         if mean is not None and abs(mean - ref.mean) > 0.01 * max(1.0, abs(ref.mean)) + (0.6 if name == "schulz_zimm" else 0):
-            viol.append({"key": K + ".prob_mw/post[mean]", "clause": "the law has the documented mean", "detail": {"mean": mean, "want": ref.mean}, "input": inp})
+            viol.append({"key": K + ".prob_mw/post[mean]" + TAG, "clause": "the law has the documented mean", "detail": {"mean": mean, "want": ref.mean}, "input": inp})
         # draws at scripted quantiles
         qs = [1e-9, 1e-4, 0.01, 0.1, 0.25, 0.5, 0.75, 0.9, 0.99, 1 - 1e-6] if tier == "quick" else \
             [1e-9, 1e-6, 1e-4, 0.001] + [i / 40 for i in range(1, 40)] + [0.999, 1 - 1e-6, 1 - 1e-9, 1 - 1e-12]
@@ -115,18 +123,18 @@ def check_case(name, params, tier, viol):
                 break
             if name == "poisson":
                 if not (math.isfinite(x) and x >= 0 and x == int(x)):
-                    viol.append({"key": K + ".draw_mw/post[support]", "clause": "draws lie in the support", "detail": {"draw": x}, "input": inp})
+                    viol.append({"key": K + ".draw_mw/post[support]" + TAG, "clause": "draws lie in the support", "detail": {"draw": x}, "input": inp})
                 continue
             lo_s, hi_s = ref.support
             if not math.isfinite(x) or x < lo_s - 1e-9 or x > hi_s + 1e-9:
-                viol.append({"key": K + ".draw_mw/post[support]", "clause": "draws are finite and lie in the support", "detail": {"quantile": u, "draw": x}, "input": inp})
+                viol.append({"key": K + ".draw_mw/post[support]" + TAG, "clause": "draws are finite and lie in the support", "detail": {"quantile": u, "draw": x}, "input": inp})
                 break
             if ref.discrete:
                 ok = x == int(x) and ref.cdf(x - 1) <= u + 1e-7 and u <= ref.cdf(x) + 1e-7
             else:
                 ok = abs(ref.cdf(x) - u) <= 1e-6
             if not ok:
-                viol.append({"key": K + ".draw_mw/post[law]", "clause": "draws follow the same law: the u-quantile of the scripted stream is the u-quantile of the documented cdf",
+                viol.append({"key": K + ".draw_mw/post[law]" + TAG, "clause": "draws follow the same law: the u-quantile of the scripted stream is the u-quantile of the documented cdf",
                              "detail": {"quantile": u, "draw": x, "cdf(draw)": ref.cdf(x), "cdf(draw-1)": ref.cdf(x - 1) if ref.discrete else None}, "input": inp})
                 break
         if name == "poisson":
@@ -134,12 +142,49 @@ def check_case(name, params, tier, viol):
             xs = [float(d.draw_mw(rng)) for _ in range(4000)]
             m = sum(xs) / len(xs)
             if abs(m - ref.mean) > 6.5 * math.sqrt(ref.mean / len(xs)) + 1e-9:
-                viol.append({"key": K + ".draw_mw/post[mean]", "clause": "draws have the documented mean", "detail": {"mean": m, "want": ref.mean}, "input": inp})
+                viol.append({"key": K + ".draw_mw/post[mean]" + TAG, "clause": "draws have the documented mean", "detail": {"mean": m, "want": ref.mean}, "input": inp})
+    return evals
+
+
+def check_pair(name, pa, pb, viol):
+    """two objects of one family with different parameters alive in one process, asked alternately about the SAME masses: each answers with its own law"""
+    from gbigsmiles.distribution import get_distribution
+    from gbigsmiles.mol_prob import RememberAdd
+    evals = 0
+    tag = lambda p: "[Mw>=2Mn]" if name == "schulz_zimm" and p[0] >= 2 * p[1] else ""
+    with warnings.catch_warnings():
+        warnings.simplefilter("ignore")
+        objs = [(get_distribution(distlaw.text_of(name, p)), distlaw.REF[name](*p), p) for p in (pa, pb)]
+        grid = sorted(set(objs[0][1].grid()[::3]) | set(objs[1][1].grid()[::3]))
+        for rnd in range(2):
+            for i in range(len(grid) - 1):
+                for d, ref, p in (objs if rnd == 0 else objs[::-1]):
+                    r = RememberAdd(0.0)
+                    r += grid[i + 1]
+                    got = float(d.prob_mw(r))
+                    want = ref.interval(0.0, grid[i + 1])
+                    pt = float(d.prob_mw(grid[i]))
+                    wpt = getattr(ref, 'documented', ref.pmf)(grid[i]) if ref.discrete else ref.pdf(grid[i])
+                    evals += 2
+                    if (not rel(got, want, 1e-6) and abs(got - want) > 1e-9) or (not rel(pt, wpt, 1e-6) and abs(pt - wpt) > 1e-12):
+                        viol.append({"key": f"C11/{distlaw.CLASS[name]}.prob_mw/post[interval]" + tag(p), "clause": "the probability of a mass interval is the cdf difference of this law with its own parameters",
+                                     "detail": {"interval": (0.0, grid[i + 1]), "got": got, "want": want, "point": (grid[i], pt, wpt),
+                                                "note": f"two live objects of the family: {distlaw.text_of(name, pa)} and {distlaw.text_of(name, pb)}"},
+                                     "input": {"distribution": distlaw.text_of(name, p), "other_object": distlaw.text_of(name, pb if p == pa else pa)}})
+                        return evals
     return evals
 
 
 def work(task):
     viol, evals, distinct, samples = [], 0, set(), []
+    for name, pa, pb in task.get("pairs", []):
+        try:
+            evals += check_pair(name, tuple(pa), tuple(pb), viol)
+        except Exception as e:
+            if harness.raised_in_checker(e):
+                raise
+            viol.append({"key": f"C11/{distlaw.CLASS[name]}/safe[{type(e).__name__}]", "clause": "a valid distribution can be constructed and evaluated",
+                         "detail": {"error": str(e)[:120], "mode": "two live objects"}, "input": {"distribution": distlaw.text_of(name, pa)}})
     for name, params in task["cases"]:
         try:
             evals += check_case(name, tuple(params), task["tier"], viol)
@@ -196,9 +241,16 @@ def work(task):
 def run(tier="quick", seed=0):
     cases = distlaw.CASES[tier]
     tasks = [{"cases": [c], "tier": tier} for c in cases] + [{"cases": [], "tier": tier, "names": True}]
+    by_family = {}
+    for n, p in cases:
+        by_family.setdefault(n, []).append(p)
+    tasks += [{"cases": [], "tier": tier, "pairs": [(n, ps[i], ps[i + 1])]} for n, ps in by_family.items() for i in range(len(ps) - 1)]
     res = harness.run_tasks("monitor.drive_C11", "work", tasks, timeout=600 if tier == "quick" else 2400)
+    from . import purecheck
+    res += harness.run_tasks("monitor.purecheck", "work", purecheck.law_tasks("C11", tier), timeout=600)
     out = harness.merge(res, rule="(family, parameters) grid x point grid x scripted quantile grid; documented law re-implemented independently "
-                        "(monitor/distlaw.py) as oracle; distinct = (family, parameters)")
+                        "(monitor/distlaw.py) as oracle; the three custom mass / density functions against the ensures clause of their contract on an argument grid (mass 0, z == 1, z < 1); pairs of live objects of one family with different parameters asked alternately about the same masses; "
+                        "distinct = (family, parameters)")
     out["assumptions"] = ["bounded layer: only the parameter / quantile grids; normalisation decided by finite summation / trapezoid quadrature (2e-4)",
                           "'draws follow the law' is decided at scripted quantiles of scipy's inverse-cdf sampler, not statistically (poisson: mean of 4000 seeded draws)"]
     return out
